@@ -77,6 +77,41 @@ theorem C01_roundtrip {env : Env} (henv : EnvOK env) (cfg : Config) (hexBitmap :
       · right; right; exact hder it hit kv h2
       · right; right; exact hder it hit (kv.1, v') h2
 
+/-- under a configuration that leaves the PDS carriers alone (what the conversion tools read
+    with), the decoded dictionary holds no `PDSxxxx` key: encoding it packs nothing -/
+theorem C01_decoded_no_pds {env : Env} (henv : EnvOK env) (cfg : Config) (hexBitmap : Bool) (m : Dict)
+    (hnp : ∀ bit f, cfg.get bit = some f → f.proc ≠ .pds)
+    (ds : List Nat) (hds : ∀ d ∈ ds, d < 10) (hl : ds.length = 4)
+    (hmti : Dict.get m .mti = some (.str (digitText ds)))
+    (hwf : ElemsWF env cfg m allBits) (bs : Bytes) (d : Dict)
+    (henc : encodeCore env cfg hexBitmap m = .ok bs) (hdec : decode env cfg hexBitmap bs = .ok d) :
+    pdsEntriesOf d = [] := by
+  obtain ⟨bs', items, henc', hdec', _, hitems, _⟩ := core_roundtrip henv cfg hexBitmap m ds hds hl hmti hwf
+  rw [henc] at henc'
+  injection henc' with e
+  subst e
+  rw [hdec] at hdec'
+  injection hdec' with e
+  subst e
+  unfold pdsEntriesOf
+  rw [List.filterMap_eq_nil_iff]
+  intro kv hkv
+  rcases applyItems_mem _ items kv hkv with h1 | ⟨it, hit, h1⟩
+  · have : kv = (Key.mti, Val.str (digitText ds)) := by simpa using h1
+    rw [this]
+  · obtain ⟨v, f, _, _, hcfg, hw⟩ := hitems it hit
+    have hsubn := wf_sub_nopds henv hw (hnp _ f hcfg)
+    rcases h1 with h2 | h2 | ⟨v', h2⟩
+    · rw [h2]
+    · have := hsubn kv h2
+      cases hk : kv.1 with
+      | pds t => exact absurd hk (this t)
+      | _ => rfl
+    · have := hsubn (kv.1, v') h2
+      cases hk : kv.1 with
+      | pds t => exact absurd hk (this t)
+      | _ => rfl
+
 /-! ## the environment hypotheses hold for the generated tables (re-checked on every run) -/
 
 /-- table form of `Codec.Lawful` for a codec built with `Codec.ofTables` -/
@@ -191,6 +226,48 @@ theorem C01_roundtrip_pds {env : Env} (henv : EnvOK env) (cfg : Config) (hexBitm
 theorem C01_pds_entries_perm {env : Env} {cfg : Config} {m : Dict} {ents : List (Text × Text)}
     (hp : PdsOK env cfg m ents) : (ents.map (fun e => (e.1, Val.str e.2))).Perm (pdsEntriesOf m) := by
   rw [← hp.entries]; exact sortPds_perm _
+
+def sampleMsg : Dict := [(.mti, .str [49,49,52,52]), (.de 2, .str [52,52,52,52,53,53,53,53]), (.de 4, .int 12)]
+
+/-- non-vacuity of `ElemsWF` (proved, not evaluated): the sample message — a string element and a
+    numeric one — is well formed under each production codec, for any configuration that gives
+    DE2 and DE4 their packaged definitions -/
+theorem sample_wf (pd : Text → Option DateTime) (c : Codec)
+    (hc : c = Gen.latin_1 ∨ c = Gen.cp500 ∨ c = Gen.cp037) (cfg : Config)
+    (h2 : cfg.get 2 = some { ftype := .llvar, length := 0, proc := .none, pytype := .str, dateFmt := [] })
+    (h4 : cfg.get 4 = some { ftype := .fixed, length := 12, proc := .none, pytype := .int, dateFmt := [] }) :
+    ElemsWF (envOf c pd) cfg sampleMsg allBits := by
+  intro bit hb v hv hp
+  have hbit : (bit = 2 ∧ v = .str [52,52,52,52,53,53,53,53]) ∨ (bit = 4 ∧ v = .int 12) := by
+    simp only [sampleMsg, Dict.get, List.find?_cons] at hv
+    by_cases h2 : bit = 2
+    · subst h2; left
+      have hv' : some (Val.str [52,52,52,52,53,53,53,53]) = some v := hv
+      injection hv' with e; exact ⟨rfl, e.symm⟩
+    · by_cases h4 : bit = 4
+      · subst h4; right
+        have hv' : some (Val.int 12) = some v := hv
+        injection hv' with e; exact ⟨rfl, e.symm⟩
+      · exfalso
+        have e1 : (Key.mti == Key.de bit) = false := by simp
+        have e2 : (Key.de 2 == Key.de bit) = false := by simp; omega
+        have e3 : (Key.de 4 == Key.de bit) = false := by simp; omega
+        simp [e1, e2, e3] at hv
+  rcases hbit with ⟨rfl, rfl⟩ | ⟨rfl, rfl⟩
+  · refine ⟨{ ftype := .llvar, length := 0, proc := .none, pytype := .str, dateFmt := [] },
+      .str (transform { ftype := .llvar, length := 0, proc := .none, pytype := .str, dateFmt := [] } [52,52,52,52,53,53,53,53]),
+      [], h2, ?_⟩
+    rcases hc with rfl | rfl | rfl
+    · exact WFField.text _ [52,52,52,52,53,53,53,53] [] (by decide) rfl (show Gen.latin_1.encode [52,52,52,52,53,53,53,53] = _ by decide +kernel) (by decide) (by intro h; cases h) (by intro; decide) rfl
+    · exact WFField.text _ [244,244,244,244,245,245,245,245] [] (by decide) rfl (show Gen.cp500.encode [52,52,52,52,53,53,53,53] = _ by decide +kernel) (by decide) (by intro h; cases h) (by intro; decide) rfl
+    · exact WFField.text _ [244,244,244,244,245,245,245,245] [] (by decide) rfl (show Gen.cp037.encode [52,52,52,52,53,53,53,53] = _ by decide +kernel) (by decide) (by intro h; cases h) (by intro; decide) rfl
+  · exact ⟨_, _, _, h4, WFField.int 12 rfl rfl rfl (by decide) (by decide)⟩
+
+/-- the hypotheses of `C01_roundtrip_packaged` are satisfiable: the sample message meets them -/
+example (pd : Text → Option DateTime) :
+    Dict.get sampleMsg .mti = some (.str (digitText [1,1,4,4])) ∧ pdsEntriesOf sampleMsg = [] ∧
+    ElemsWF (envOf Gen.cp500 pd) Gen.bitConfig sampleMsg allBits :=
+  ⟨rfl, rfl, sample_wf pd _ (Or.inr (Or.inl rfl)) _ rfl rfl⟩
 
 /-! ### the packaged configuration satisfies the carrier hypotheses (re-checked on every run) -/
 
